@@ -53,3 +53,22 @@ def cost(case):
     if a in ("HCT", "VHCT") or C.family(a) in ("POO", "GPO"):
         return 4e-5 * T * 10 + 0.05
     return 1e-4 * T + 0.02
+
+
+def add_midqueries(rng, case, prob=0.3, k=4):
+    """with probability prob: get_last_point() is also called between pull and receive_reward in up to k rounds
+    (a legal interleaving of the API: the recommendation is logged while an evaluation is pending)"""
+    if rng.random() >= prob or case["T"] < 8:
+        return case
+    a = case["algo"]
+    lo = 1
+    if a in ("StroquOOL", "SequOOL"):
+        # StroquOOL raises before validation (known finding of C01); SequOOL.get_last_point raises IndexError while
+        # the evaluation of the point just handed out is pending (outside every given property: not judged)
+        return case
+    if C.family(a) == "GPO":
+        lo = C.gpo_N_H(case["n"], case["params"]["rhomax"])[1] + 2
+    if lo >= case["T"] - 1:
+        return case
+    case["midqueries"] = sorted(int(x) for x in rng.integers(lo, case["T"], size=int(rng.integers(1, k + 1))))
+    return case
